@@ -127,7 +127,8 @@ static void special_structures(unsigned long long& unit)
 		for(double eps : {1e-18, -1e-16, 0.0})
 		{
 			if(!mc::mine(unit++)) continue;
-			auto f = [](double x) { return std::sqrt(std::fabs(x - 1.0 / 3)) + std::sin(40 * x); };
+			// (a noise-like integrand: no panel ever meets the request, so the whole tree down to the depth bound is visited)
+			auto f = [](double x) { double t = std::sin(x * 12345.678 + 0.1) * 43758.5453; return t - std::floor(t); };
 			std::string ck = "unreachable_request,depth=" + std::to_string(depth) + ",eps=" + mc::dec(eps);
 			structural("special", ck, ck, f, 0.0, 1.0, eps, depth, evals);
 			cases++;
